@@ -1,6 +1,8 @@
 import NetVerif.Model.ChanSem
 import NetVerif.Proofs.Lemmas.GateInv
 import NetVerif.Gen.C29
+import NetVerif.Proofs.Lemmas.QueueGlobal
+import NetVerif.Proofs.Lemmas.MonitorSound
 /-!
 C29 — QUIC gates and queues provide exclusion without lost wakeups.
 
@@ -393,5 +395,134 @@ theorem unlock_sets_condition {c c' : GConfig} {i : Nat} {a : GAct}
     intro hx; exact absurd hx hrun
   refine ⟨h0, hc, ?_, ho⟩
   rw [← hc]; exact hI'.cond h0
+
+/-! ## Queue
+
+Configurations: the gate's channels, the shared fields `err`/`q`, ghost histories
+`accepted`/`delivered`, and any number of goroutines each calling `put` / `get` / `close` in any
+order (`QReachable queue gate`).  Goroutines interleave at every channel operation and between
+any two statements. -/
+
+open NetVerif.Proofs.QueueInv
+
+/-- **Invariant** of every reachable queue configuration. -/
+theorem queue_invariant_all {c : QConfig} (h : QReachable queue gate c) : QInv c := queue_invariant h
+
+/-- At most one goroutine holds the queue's gate. -/
+theorem queue_mutual_exclusion {c : QConfig} (h : QReachable queue gate c) : qholders c.gs ≤ 1 := by
+  have := (queue_invariant h).tok; omega
+
+/-- **Consequently** the shared fields are only ever touched by the goroutine that holds the
+gate (and there is exactly one holder then): the queue methods are free of data races, which
+is what makes treating each data statement as one step sound. -/
+theorem queue_data_access_exclusive {c c' : QConfig} {i : Nat} {a : QAct}
+    (h : QReachable queue gate c) (hs : c.step queue gate i a = some c') (hne : c'.sh ≠ c.sh) :
+    ∃ qg, c.gs[i]? = some qg ∧ qg.g.holding = true ∧ qg.g.cont = [] ∧ qholders c.gs = 1 := by
+  obtain ⟨qg, σ', sh', qg', hg, hst, rfl⟩ := qstep_cases hs
+  have hI := queue_invariant h
+  have F := qstep_local hI.swf (hI.wf qg (List.mem_of_getElem? hg)) hst
+  obtain ⟨hh, hc, _, _⟩ := F.excl hne
+  refine ⟨qg, hg, hh, hc, ?_⟩
+  have h1 := holders_pos (gs := c.gs.map (·.g)) (i := i) (g := qg.g) (by simp [hg]) hh
+  have := hI.tok
+  simp only [qholders] at *
+  omega
+
+/-- **FIFO, exactly once**: at every point of every interleaving, the items accepted by `put`
+(in the order of their appends) are exactly the items delivered by `get` (in order) followed by
+the items still queued.  So every delivered item was put, nothing is delivered twice or out of
+order, and nothing queued is lost while the queue is open. -/
+theorem queue_fifo {c : QConfig} (h : QReachable queue gate c) :
+    c.sh.accepted = c.sh.delivered ++ c.sh.q := (queue_invariant h).fifo
+
+theorem queue_delivered_is_prefix_of_accepted {c : QConfig} (h : QReachable queue gate c) :
+    c.sh.delivered <+: c.sh.accepted := ⟨c.sh.q, (queue_fifo h).symm⟩
+
+/-- `queue.unlock` recomputes the condition: while the gate is free, the wake-up token is in
+`set` iff the queue is closed or non-empty. -/
+theorem queue_condition_recomputed {c : QConfig} (h : QReachable queue gate c)
+    (hfree : qholders c.gs = 0) :
+    (c.σ .set).len = 1 ↔ (c.sh.err = true ∨ c.sh.q ≠ []) := by
+  rw [(queue_invariant h).cond hfree]
+  simp [condVal]
+
+theorem wait_step_enabled {σ : Store GCh} {g : GG} (hwf : GG.wf g) (hm : g.meth = .waitAndLock)
+    (hrun : g.cont ≠ []) (h1 : (σ .set).len = 1) :
+    ∃ σ' g', g.step gate σ (.run (.arm 0)) = some (σ', g') ∧ g'.cont = [] ∧
+      g'.last = some .nil ∧ g'.holding = true := by
+  rcases hwf with ⟨hc, _⟩ | ⟨_, _, hh⟩ | ⟨_, _, hm', _⟩
+  · exact absurd hc hrun
+  · rcases hh with ⟨hm', _⟩ | ⟨_, hc | hc⟩ | ⟨hm', _⟩
+    · rw [hm] at hm'; cases hm'
+    · simp [GG.step, hc, gate, Sel.step, Arm.enabled, h1, GG.after, holdAfter]
+      exact ⟨_, _, ⟨rfl, rfl⟩, rfl, rfl, rfl⟩
+    · simp [GG.step, hc, gate, Sel.step, Arm.enabled, h1, GG.after, holdAfter]
+      exact ⟨_, _, ⟨rfl, rfl⟩, rfl, rfl, rfl⟩
+    · rw [hm] at hm'; cases hm'
+  · rw [hm] at hm'; cases hm'
+
+/-- **A blocked get returns as soon as an item or close arrives; close wakes every blocked
+getter**: whenever the gate is free and the queue is closed or non-empty, EVERY goroutine
+blocked in `get` (anywhere inside `waitAndLock`) has its receive from `set` enabled, and that
+step makes `waitAndLock` return nil with the gate acquired.  (After `close`, `err` stays set —
+`queue_close_permanent` — so each woken getter unlocks with the condition set again and the
+token returns to `set` for the next one.) -/
+theorem queue_blocked_get_wakes {c : QConfig} (h : QReachable queue gate c)
+    (hfree : qholders c.gs = 0) (hcond : c.sh.err = true ∨ c.sh.q ≠ [])
+    {i : Nat} {qg : QG} (hg : c.gs[i]? = some qg) (hm : qg.g.meth = .waitAndLock)
+    (hrun : qg.g.cont ≠ []) :
+    ∃ c' qg', c.step queue gate i (.gate (.run (.arm 0))) = some c' ∧ c'.gs[i]? = some qg' ∧
+      qg'.g.cont = [] ∧ qg'.g.last = some .nil ∧ qg'.g.holding = true := by
+  have hI := queue_invariant h
+  have h1 := (queue_condition_recomputed h hfree).mpr hcond
+  obtain ⟨hwf, _, _⟩ := hI.wf qg (List.mem_of_getElem? hg)
+  obtain ⟨σ', g', hst, hc, hl, hh⟩ := wait_step_enabled hwf hm hrun h1
+  have hlt : i < c.gs.length := (List.getElem?_eq_some_iff.mp hg).1
+  refine ⟨{ σ := σ', sh := c.sh, gs := c.gs.set i { qg with g := g' } }, { qg with g := g' }, ?_, ?_, hc, hl, hh⟩
+  · simp [QConfig.step, hg, QG.step, hst]
+  · simp [hlt]
+
+/-- Closing is permanent. -/
+theorem queue_close_permanent {c c' : QConfig} {i : Nat} {a : QAct}
+    (h : QReachable queue gate c) (hs : c.step queue gate i a = some c') (hcl : c.sh.err = true) :
+    c'.sh.err = true := by
+  obtain ⟨qg, σ', sh', qg', hg, hst, rfl⟩ := qstep_cases hs
+  have hI := queue_invariant h
+  exact (qstep_local hI.swf (hI.wf qg (List.mem_of_getElem? hg)) hst).closed hcl
+
+/-- NOT proved here (checked on the real code by the stress oracle, which reports a Go panic
+as a failure): `get` never indexes an empty slice.  It needs one more flow invariant (after a
+successful `waitAndLock` the holder knows `err ∨ q ≠ []` until it pops). -/
+def queue_get_never_panics_Statement : Prop :=
+  ∀ c, QReachable queue gate c → ∀ qg ∈ c.gs, qg.panicked = false
+
+/-- NOT proved here (checked by the stress monitor: `put-accepted-after-close-returned`):
+a `put` that starts after the queue was closed appends nothing. -/
+def queue_put_after_close_rejected_Statement : Prop :=
+  ∀ c c' i a, QReachable queue gate c → c.step queue gate i a = some c' → c.sh.err = true →
+    c'.sh.accepted = c.sh.accepted
+
+/-- The literal reading "every item put before close is delivered" is FALSE by design:
+`close` makes pending and future `get`s fail even if items are still queued (documented on
+`queue.close`).  Witness: put 7; close; the item stays in `q` forever while every `get`
+returns the close error. What holds is `queue_fifo`. -/
+def queue_items_survive_close_Statement : Prop :=
+  ∀ c, QReachable queue gate c → c.sh.err = true → c.sh.q = []
+
+/-! ## V-tie: soundness of the trace monitors -/
+
+open NetVerif.Model.ChanSemMonitor in
+/-- Every gate trace the monitor accepts has at most one goroutine inside the gate at every
+prefix. -/
+theorem gate_monitor_sound (b : Bool) (es : List GEv) (m' : GMon)
+    (h : ({ holder := none, cond := b } : GMon).run es = .ok m') :
+    ∀ pre suf, es = pre ++ suf → (inside [] pre).length ≤ 1 :=
+  NetVerif.Proofs.MonitorSound.gate_monitor_sound b es m' h
+
+open NetVerif.Model.ChanSemMonitor in
+/-- Every queue trace the monitor accepts delivers no item twice. -/
+theorem queue_monitor_no_duplicates (es : List QEv) (m' : QMon)
+    (h : ({} : QMon).run es = .ok m') : (deliveredOf es).Nodup :=
+  NetVerif.Proofs.MonitorSound.queue_monitor_no_duplicates es m' h
 
 end NetVerif.Proofs.C29
